@@ -77,14 +77,21 @@ static const char kConvAlpha[] = {' ', '\t', '+', '-', '0', '1', '9', '.', ':', 
 template <class TChar> static std::basic_string<TChar> widen(const std::string& s) { return std::basic_string<TChar>(s.begin(), s.end()); }
 template <class TChar> static void runConverters(bsx::Ctx& c, const std::string& sig, const std::string& s8) {
 	using namespace std::chrono; using BS::Convert::To;
-	auto s = widen<TChar>(s8);
-	auto one = [&](const char* tn, auto fn) { lib::Out o = lib::guard(fn); c.outcome(o.cls); if (o.cls == "nonstd") c.violation(sig + "/target=" + tn + "/out=nonstd_exception", "text=" + bsx::hex(s8)); };
-	one("int8", [&] { (void)To<int8_t>(s); }); one("uint8", [&] { (void)To<uint8_t>(s); }); one("int16", [&] { (void)To<int16_t>(s); }); one("uint32", [&] { (void)To<uint32_t>(s); });
-	one("int64", [&] { (void)To<int64_t>(s); }); one("uint64", [&] { (void)To<uint64_t>(s); }); one("float", [&] { (void)To<float>(s); }); one("double", [&] { (void)To<double>(s); });
-	one("bool", [&] { (void)To<bool>(s); }); one("enum", [&] { (void)To<En>(s); });
-	one("tp_s", [&] { (void)To<time_point<system_clock, seconds>>(s); }); one("tp_ms", [&] { (void)To<time_point<system_clock, milliseconds>>(s); }); one("tp_ns", [&] { (void)To<time_point<system_clock, nanoseconds>>(s); });
-	one("dur_s", [&] { (void)To<seconds>(s); }); one("dur_ms", [&] { (void)To<milliseconds>(s); }); one("dur_h", [&] { (void)To<hours>(s); });
-	one("rawtime", [&] { (void)To<BS::CRawTime>(s); });
+	auto str = widen<TChar>(s8);
+	// the same text once as a (NUL-terminated) std::basic_string and once as a string_view over an exact-size heap block: a parser that
+	// looks at the character behind the end reads a 0 in the first case and trips ASan in the second
+	std::unique_ptr<TChar[]> hb(new TChar[str.size() ? str.size() : 1]); std::copy(str.begin(), str.end(), hb.get());
+	std::basic_string_view<TChar> view(hb.get(), str.size());
+	auto run = [&](const auto& s, const char* form) {
+		auto one = [&](const char* tn, auto fn) { lib::Out o = lib::guard(fn); c.outcome(o.cls); if (o.cls == "nonstd") c.violation(sig + "/target=" + tn + form + "/out=nonstd_exception", "text=" + bsx::hex(s8)); };
+		one("int8", [&] { (void)To<int8_t>(s); }); one("uint8", [&] { (void)To<uint8_t>(s); }); one("int16", [&] { (void)To<int16_t>(s); }); one("uint32", [&] { (void)To<uint32_t>(s); });
+		one("int64", [&] { (void)To<int64_t>(s); }); one("uint64", [&] { (void)To<uint64_t>(s); }); one("float", [&] { (void)To<float>(s); }); one("double", [&] { (void)To<double>(s); });
+		one("bool", [&] { (void)To<bool>(s); }); one("enum", [&] { (void)To<En>(s); });
+		one("tp_s", [&] { (void)To<time_point<system_clock, seconds>>(s); }); one("tp_ms", [&] { (void)To<time_point<system_clock, milliseconds>>(s); }); one("tp_ns", [&] { (void)To<time_point<system_clock, nanoseconds>>(s); });
+		one("dur_s", [&] { (void)To<seconds>(s); }); one("dur_ms", [&] { (void)To<milliseconds>(s); }); one("dur_h", [&] { (void)To<hours>(s); });
+		one("rawtime", [&] { (void)To<BS::CRawTime>(s); });
+	};
+	run(str, ""); run(view, "/view");
 }
 
 static void body(bsx::Ctx& c) {
@@ -327,7 +334,7 @@ static void body(bsx::Ctx& c) {
 		for (int last = 0; last < (len == 0 ? 1 : NA); ++last) {
 			std::string s = prefix; if (len > 0) s.push_back(kConvAlpha[last]);
 			c.describe(sigbase, "text=" + bsx::hex(s));
-			c.evals(3 * 17);
+			c.evals(2 * 3 * 17);
 			runConverters<char>(c, sigbase + "/char", s); runConverters<char16_t>(c, sigbase + "/char16", s); runConverters<char32_t>(c, sigbase + "/char32", s);
 			c.nontrivial(bsx::fnv(s) ^ 77);
 		}
